@@ -1529,3 +1529,456 @@ func init() {
 	extend("C08", ruleStateless("C08.stateless-verification", "pkg/signature", "pkg/recovery"))
 	extend("C09", ruleStateless("C09.stateless-decryption", "pkg/encryption", "pkg/recovery"))
 }
+
+// ruleC10ErrorsNotDropped: in the library's drive/index path no error result is discarded (expression statement or
+// blank identifier), apart from a frozen table of best-effort cleanups.
+func ruleC10ErrorsNotDropped(c *Ctx) {
+	const rule = "C10.errors-not-dropped"
+	c.floor(rule, 8, "discarded error results in pkg/operations, pkg/recovery, pkg/persisters, pkg/tape, pkg/fs, pkg/inventory, internal/tarext (each must be in the exemption table)")
+	// frozen exceptions (callee name -> reason)
+	exempt := map[string]string{
+		"CloseReader":          "deferred best-effort release after the operation's own error has been decided",
+		"CloseWriter":          "deferred best-effort release inside the writer guard",
+		"closeWithoutLocking":  "seek re-open: the previous stream may legitimately be closed already",
+		"CloseWithError":       "reports the error to the pipe's reader; its own result is always nil",
+		"Debug": "logging", "Trace": "logging", "Info": "logging", "Error": "logging",
+	}
+	scope := map[string]bool{"pkg/operations": true, "pkg/recovery": true, "pkg/persisters": true, "pkg/tape": true, "pkg/fs": true, "pkg/inventory": true, "internal/tarext": true}
+	errT := types.Universe.Lookup("error").Type()
+	n := 0
+	for _, f := range c.Funcs {
+		if !scope[f.RelPkg()] {
+			continue
+		}
+		info := f.Pkg.TypesInfo
+		// statements that discard: ExprStmt(call) and assignments with _ in the error slot
+		discards := map[*ast.CallExpr]string{}
+		walkOwn(f.Body(), func(nd ast.Node) {
+			switch s := nd.(type) {
+			case *ast.ExprStmt:
+				if call, ok := ast.Unparen(s.X).(*ast.CallExpr); ok {
+					discards[call] = "result discarded"
+				}
+			case *ast.DeferStmt:
+				discards[s.Call] = "deferred, result discarded"
+			case *ast.GoStmt:
+				discards[s.Call] = "go statement"
+			case *ast.AssignStmt:
+				if len(s.Rhs) == 1 {
+					if call, ok := ast.Unparen(s.Rhs[0]).(*ast.CallExpr); ok {
+						if id, ok := s.Lhs[len(s.Lhs)-1].(*ast.Ident); ok && id.Name == "_" {
+							discards[call] = "error assigned to _"
+						}
+					}
+				}
+			}
+		})
+		k := 0
+		for _, cs := range f.calls {
+			tv, ok := info.Types[cs.Call]
+			if !ok || tv.Type == nil {
+				continue
+			}
+			returnsErr := false
+			switch t := tv.Type.(type) {
+			case *types.Tuple:
+				if t.Len() > 0 && types.Identical(t.At(t.Len()-1).Type(), errT) {
+					returnsErr = true
+				}
+			default:
+				if types.Identical(t, errT) {
+					returnsErr = true
+				}
+			}
+			if !returnsErr {
+				continue
+			}
+			n++
+			how, dropped := discards[cs.Call]
+			if !dropped {
+				continue // checked or propagated by the surrounding statement
+			}
+			k++
+			name := ""
+			if cs.Callee != nil {
+				name = cs.Callee.Name()
+			}
+			construct := fmt.Sprintf("dropped %s#%d", name, k)
+			if why, ok := exempt[name]; ok {
+				c.ok(rule, f, construct, cs.Call.Pos(), false, "exempt (%s): %s", how, why)
+				continue
+			}
+			if cs.Go {
+				continue // the goroutine body is analysed on its own
+			}
+			c.bad(rule, f, construct, cs.Call.Pos(), "the error of %s is dropped (%s): a failure at this point is invisible to the caller, which then reports success or continues on a half-done operation", exprString(cs.Call.Fun), how)
+		}
+	}
+	if n < half(150) {
+		c.unresolved("only %d error-returning calls found in the drive/index path", n)
+	}
+}
+
+// ruleC11NoNewGoroutines: the lockset / lock-order analysis assumes the library starts goroutines only where the
+// frozen table says; a new `go` statement changes the concurrency model and must be reviewed.
+func ruleC11NoNewGoroutines(c *Ctx) {
+	const rule = "C11.goroutine-sites"
+	c.floor(rule, 1, "go statements in library packages")
+	allowed := map[string]string{
+		"pkg/fs":       "streaming restore behind File.Read / File.Seek (modelled by the pipe wait-for edge)",
+		"internal/ftp":     "FTP server plumbing outside the filesystem",
+		"internal/logging": "log line pump, touches no filesystem state",
+	}
+	n := 0
+	for _, f := range c.Funcs {
+		rel := f.RelPkg()
+		if !(strings.HasPrefix(rel, "pkg/") || strings.HasPrefix(rel, "internal/")) || strings.HasPrefix(rel, "internal/db/") {
+			continue
+		}
+		k := 0
+		for _, cs := range f.calls {
+			if !cs.Go {
+				continue
+			}
+			n++
+			k++
+			why, ok := allowed[rel]
+			c.verdictIf(ok, rule, f, fmt.Sprintf("go#%d", k), cs.Call.Pos(), "known goroutine site: "+why,
+				"package "+rel+" starts a goroutine: work on the drive, the tar writer or the index now runs concurrently with its caller, outside the locking discipline the analysis (and the code) assumes")
+		}
+	}
+	if n == 0 {
+		c.unresolved("no go statement found in library packages (the streaming read goroutine is gone?)")
+	}
+}
+
+func init() {
+	extend("C10", ruleC10ErrorsNotDropped)
+	extend("C11", ruleC11NoNewGoroutines)
+}
+
+// ================= third round (after the second batch of independently seeded changes) =================
+
+func init() {
+	extend("C03", ruleC03CopyAgreement, ruleC03CounterIntegrity)
+	extend("C04", ruleC04LocationOperands)
+	extend("C05", ruleC05FlushUnconditional)
+	extend("C14", ruleC14SizeAsksUnderlying)
+	extend("C01", ruleReplayEveryRecord("C01.replay-every-record"))
+	extend("C07", ruleReplayEveryRecord("C07.replay-every-record"))
+	extend("C17", ruleC17NoCutsetTrim)
+	extend("C08", ruleFetchErrorPropagated("C08.restore-error-propagated"))
+}
+
+// ruleC03CopyAgreement: per drive kind, the size pass and the write pass move the content with the same copy
+// primitive and buffer (codecs that frame by write size - OpenPGP partial lengths - encode differently otherwise).
+func ruleC03CopyAgreement(c *Ctx) {
+	const rule = "C03.two-pass-copy-agreement"
+	c.floor(rule, 2, "writing functions with a size pass and a write pass")
+	p := c.pipeFns()
+	if p.compress == nil {
+		return
+	}
+	for _, f := range contentWriters(c, p) {
+		info := f.Pkg.TypesInfo
+		var comps []*CallSite
+		for _, cs := range f.calls {
+			if cs.Target == p.compress {
+				comps = append(comps, cs)
+			}
+		}
+		if len(comps) != 2 {
+			continue
+		}
+		// copies grouped by pass, described as "cond-polarity:callee(bufexpr)"
+		sig := [2][]string{}
+		for _, cs := range f.calls {
+			if !(isPkgFunc(cs.Callee, "io", "Copy") || isPkgFunc(cs.Callee, "io", "CopyBuffer") || isPkgFunc(cs.Callee, "io", "CopyN")) || len(cs.Call.Args) < 2 {
+				continue
+			}
+			_, dcall, _ := defOf(f, objOfIdent(info, cs.Call.Args[0]))
+			pass := -1
+			if dcall == comps[0].Call {
+				pass = 0
+			} else if dcall == comps[1].Call {
+				pass = 1
+			}
+			if pass < 0 {
+				continue
+			}
+			desc := cs.Callee.Name()
+			if len(cs.Call.Args) == 3 {
+				if _, bcall, _ := defOf(f, objOfIdent(info, cs.Call.Args[2])); bcall != nil {
+					desc += "(" + exprString(bcall) + ")"
+				}
+			}
+			// innermost enclosing condition (drive kind)
+			conds := enclosingConds(f.Body(), cs.Call)
+			if len(conds) > 0 {
+				desc = fmt.Sprintf("%s=%v:%s", exprString(conds[0].e), conds[0].pos, desc)
+			}
+			sig[pass] = append(sig[pass], desc)
+		}
+		sort.Strings(sig[0])
+		sort.Strings(sig[1])
+		same := len(sig[0]) > 0 && strings.Join(sig[0], ";") == strings.Join(sig[1], ";")
+		c.verdictIf(same, rule, f, "copy primitives", comps[1].Call.Pos(), "both passes copy with "+strings.Join(sig[0], "; "),
+			fmt.Sprintf("the size pass copies with [%s] but the write pass with [%s]: codecs whose framing follows the size of each Write (OpenPGP partial-length packets) then produce a different encoded length than the header announces", strings.Join(sig[0], "; "), strings.Join(sig[1], "; ")))
+	}
+}
+
+// ruleC03CounterIntegrity: the byte counters that measure the encoded size are advanced only by their own Write/Read.
+func ruleC03CounterIntegrity(c *Ctx) {
+	const rule = "C03.counter-integrity"
+	c.floor(rule, 1, "stores to the BytesRead fields of the ioext counters")
+	n := 0
+	for _, typ := range []string{"CounterWriter", "CounterReader", "CounterReadCloser", "CounterReadSeekCloser"} {
+		fv := c.field("internal/ioext", typ, "BytesRead")
+		if fv == nil {
+			continue
+		}
+		for _, st := range c.storesTo(fv) {
+			n++
+			inIoext := st.In.RelPkg() == "internal/ioext"
+			_, isLit := st.Node.(*ast.KeyValueExpr)
+			// initialisation in a composite literal with a position (tape readers start at an offset) is construction
+			c.verdictIf(inIoext || isLit, rule, st.In, fmt.Sprintf("store %s.BytesRead#%d", typ, n), st.Node.Pos(), "counter advanced by its own method / initialised at construction",
+				"the byte counter is assigned directly outside internal/ioext: the encoded size that becomes hdr.Size is then not what the pipeline actually produced (e.g. preset from a stale FileInfo size)")
+		}
+	}
+	if n == 0 {
+		c.unresolved("no store to any ioext counter found")
+	}
+}
+
+// ruleC04LocationOperands: in the last-position query the record column is the one multiplied by the record size.
+func ruleC04LocationOperands(c *Ctx) {
+	const rule = "C04.location-operands"
+	c.floor(rule, 1, "the combined-location expression of GetLastIndexedRecordAndBlock")
+	f := c.fn("pkg/persisters", "(*MetadataPersister).GetLastIndexedRecordAndBlock")
+	if f == nil {
+		return
+	}
+	info := f.Pkg.TypesInfo
+	n := 0
+	walkOwn(f.Body(), func(nd ast.Node) {
+		call, ok := nd.(*ast.CallExpr)
+		if !ok || !isPkgFunc(calleeObj(info, call), "fmt", "Sprintf") || len(call.Args) < 2 {
+			return
+		}
+		format, ok := constString(info, call.Args[0])
+		if !ok {
+			return
+		}
+		i := strings.Index(format, "*$1")
+		if i < 0 {
+			return
+		}
+		n++
+		// index of the %v just before "*$1" and of the next %v after it
+		before := strings.Count(format[:i], "%v") // the multiplied operand is verb number `before` (1-based)
+		if before < 1 || before+1 > len(call.Args)-1 {
+			c.undecided(rule, f, "location", call.Pos(), "cannot map the operands of the location expression")
+			return
+		}
+		mul, add := call.Args[before], call.Args[before+1]
+		mc, ac := nameClass(lastSelName(mul)), nameClass(lastSelName(add))
+		good := mc.axis == "rec" && ac.axis == "blk" && mc.age == "lastknown" && ac.age == "lastknown"
+		c.verdictIf(good, rule, f, "location", call.Pos(), "location = lastknownrecord*recordSize + lastknownblock",
+			fmt.Sprintf("the combined location multiplies %s by the record size and adds %s: rows are then ordered by the wrong quantity, so the 'last indexed' position is not the end of the tape once it spans more than one record", exprString(mul), exprString(add)))
+	})
+	if n == 0 {
+		c.unresolved("no location expression (`... *$1 ...`) found in GetLastIndexedRecordAndBlock")
+	}
+}
+
+func lastSelName(e ast.Expr) string {
+	if se, ok := ast.Unparen(e).(*ast.SelectorExpr); ok {
+		return se.Sel.Name
+	}
+	return types.ExprString(e)
+}
+
+// ruleC05FlushUnconditional: in the trailer closure the final flush of a tape record depends on nothing but
+// "dirty" and "not a regular file".
+func ruleC05FlushUnconditional(c *Ctx) {
+	const rule = "C05.flush-unconditional"
+	c.floor(rule, 1, "the Flush call of the trailer closure")
+	newTW := c.fn("internal/tarext", "NewTapeWriter")
+	if newTW == nil {
+		return
+	}
+	lits := c.litsIn(newTW)
+	if len(lits) != 1 {
+		return
+	}
+	l := lits[0]
+	info := l.Pkg.TypesInfo
+	isReg := paramVar(newTW, "isRegular")
+	n := 0
+	for _, cs := range l.calls {
+		if !isMethod(cs.Callee, "bufio", "Writer", "Flush") {
+			continue
+		}
+		n++
+		var extra []string
+		for _, cl := range enclosingConds(l.Body(), cs.Call) {
+			e := ast.Unparen(cl.e)
+			if st, ok := e.(*ast.StarExpr); ok && cl.pos {
+				_ = st
+				continue // *dirty
+			}
+			if u, ok := e.(*ast.UnaryExpr); ok && u.Op == token.NOT && objOfIdent(info, u.X) == types.Object(isReg) && cl.pos {
+				continue // !isRegular
+			}
+			if objOfIdent(info, e) == types.Object(isReg) && !cl.pos {
+				continue
+			}
+			// the error test of the call itself: `if err := bw.Flush(); err != nil`
+			if containsNode(cl.e, cs.Call) {
+				continue
+			}
+			extra = append(extra, exprString(cl.e))
+		}
+		c.verdictIf(len(extra) == 0, rule, l, fmt.Sprintf("Flush#%d", n), cs.Call.Pos(), "the buffered tail of the archive is flushed whenever something was written to a tape",
+			"the final Flush additionally depends on "+strings.Join(extra, ", ")+": for some archive lengths the buffered tail (last data, padding, trailer) never reaches the tape")
+	}
+	if n == 0 {
+		c.bad(rule, l, "Flush#1", l.Lit.Pos(), "the trailer closure no longer flushes the tape buffer")
+	}
+}
+
+// ruleC14SizeAsksUnderlying: Size() of a write cache asks the underlying object, it is not a shadow counter.
+func ruleC14SizeAsksUnderlying(c *Ctx) {
+	const rule = "C14.size-asks-underlying"
+	c.floor(rule, 2, "Size methods of the write-cache implementations")
+	for _, f := range c.Funcs {
+		if f.RelPkg() != "pkg/cache" || f.Decl == nil || f.Decl.Recv == nil || f.Decl.Name.Name != "Size" {
+			continue
+		}
+		recv := receiverVar(f)
+		asks := false
+		for _, cs := range f.calls {
+			se, ok := ast.Unparen(cs.Call.Fun).(*ast.SelectorExpr)
+			if !ok {
+				continue
+			}
+			switch se.Sel.Name {
+			case "Stat", "Len", "Size":
+				if usesObj(f.Pkg.TypesInfo, se.X, recv) {
+					asks = true
+				}
+			}
+		}
+		c.verdictIf(asks, rule, f, "Size source", f.Decl.Pos(), "the size is asked from the underlying file/buffer",
+			"Size() does not ask the underlying file or buffer (Stat/Len) but returns separately tracked state: overwriting at an offset, or truncating through another path, makes it disagree with the content length that is flushed")
+	}
+}
+
+// ruleReplayEveryRecord: inside recovery.Index a header reaches indexHeader under no condition other than the
+// caller's `offset` skip: replay applies every record of the tape, in order.
+func ruleReplayEveryRecord(rule string) func(*Ctx) {
+	return func(c *Ctx) {
+		c.floor(rule, 2, "indexHeader calls in recovery.Index")
+		f := c.fn("pkg/recovery", "Index")
+		ih := c.fn("pkg/recovery", "indexHeader")
+		if f == nil || ih == nil {
+			return
+		}
+		info := f.Pkg.TypesInfo
+		offset := paramVar(f, "offset")
+		n := 0
+		for _, cs := range f.calls {
+			if cs.Target != ih {
+				continue
+			}
+			n++
+			var extra []string
+			for _, cl := range enclosingConds(f.Body(), cs.Call) {
+				if containsNode(cl.e, cs.Call) {
+					continue
+				}
+				if offset != nil && usesObj(info, cl.e, offset) && cl.pos {
+					continue // i >= offset
+				}
+				// the drive-kind split (reader.DriveIsRegular) selects which loop runs
+				if se, ok := ast.Unparen(cl.e).(*ast.SelectorExpr); ok && se.Sel.Name == "DriveIsRegular" {
+					continue
+				}
+				extra = append(extra, exprString(cl.e))
+			}
+			// skip statements (`continue`) between the header read and this call, other than the end-of-data handling
+			c.verdictIf(len(extra) == 0, rule, f, fmt.Sprintf("indexHeader#%d", n), cs.Call.Pos(), "every header past the caller's offset is applied",
+				"a header is applied to the index only when additionally "+strings.Join(extra, " and ")+": replay silently skips records, so an index replayed from an earlier state does not converge to a from-scratch rebuild")
+		}
+		if n < 2 {
+			c.unresolved("only %d indexHeader calls in recovery.Index", n)
+		}
+	}
+}
+
+// ruleC17NoCutsetTrim: strings.Trim/TrimLeft/TrimRight take a *cutset*; with a multi-character argument such as
+// "./" they strip every leading dot and slash. Path normalisation must use the prefix/suffix forms.
+func ruleC17NoCutsetTrim(c *Ctx) {
+	const rule = "C17.no-cutset-trim"
+	scan := func(cc *Ctx, report bool) int {
+		n := 0
+		for _, f := range cc.Funcs {
+			rel := f.RelPkg()
+			if !(strings.HasPrefix(rel, "pkg/") || strings.HasPrefix(rel, "internal/")) || strings.HasPrefix(rel, "internal/db/") {
+				continue
+			}
+			info := f.Pkg.TypesInfo
+			for _, cs := range f.calls {
+				o := cs.Callee
+				if !(isPkgFunc(o, "strings", "TrimLeft") || isPkgFunc(o, "strings", "TrimRight") || isPkgFunc(o, "strings", "Trim")) || len(cs.Call.Args) != 2 {
+					continue
+				}
+				cut, ok := constString(info, cs.Call.Args[1])
+				if !ok || len(cut) < 2 {
+					continue
+				}
+				n++
+				if report {
+					c.bad(rule, f, fmt.Sprintf("%s#%d", o.Name(), n), cs.Call.Pos(), "strings.%s(_, %q) strips every leading/trailing character of the set, not the prefix %q: names such as \"/.config\" lose their dot, so different paths collapse onto one index row", o.Name(), cut, cut)
+				}
+			}
+		}
+		return n
+	}
+	if scan(c, true) == 0 {
+		fc, err := fixtureCtx("pkg/fixture", "package fixture\nimport \"strings\"\nfunc f(p string) string { return strings.TrimLeft(p, \"./\") }\n")
+		if err != nil || scan(fc, false) != 1 {
+			c.unresolved("cutset-trim matcher failed its positive control")
+		}
+		c.ok(rule, nil, "no cutset trim", token.NoPos, false, "no strings.Trim*/cutset call with a multi-character set on the library's paths (matcher verified on an embedded fixture)")
+	}
+}
+
+// ruleFetchErrorPropagated: Operations.Restore ends with the error of the first failing recovery.Fetch.
+func ruleFetchErrorPropagated(rule string) func(*Ctx) {
+	return func(c *Ctx) {
+		c.floor(rule, 1, "recovery.Fetch calls in pkg/operations")
+		fetch := c.fn("pkg/recovery", "Fetch")
+		if fetch == nil {
+			return
+		}
+		n := 0
+		for _, f := range c.Funcs {
+			if f.RelPkg() != "pkg/operations" {
+				continue
+			}
+			for _, cs := range f.calls {
+				if cs.Target != fetch {
+					continue
+				}
+				n++
+				c.verdictIf(errorReturned(f, cs.Call), rule, f, fmt.Sprintf("Fetch#%d", n), cs.Call.Pos(), "a failing member (e.g. a content signature mismatch) ends the restore with that error",
+					"the error of recovery.Fetch is not returned immediately and unconditionally: a later successful member overwrites it, so a restore that delivered altered content reports success")
+			}
+		}
+		if n == 0 {
+			c.unresolved("no recovery.Fetch call in pkg/operations")
+		}
+	}
+}
